@@ -1,4 +1,4 @@
-SPECIFICATION MCSpec
+SPECIFICATION Spec
 CONSTANTS
  Classes <- SmallClasses
  HashedClasses <- SmallClasses
